@@ -218,3 +218,45 @@ def t_json_extends_sites():
     obl.append({"name": "census:json_extends-call-sites/cover:call sites found", "pc": [], "goal": z3.BoolVal(n >= 3), "kind": "cover"})
     info = [{"function": "all of pams (calls of json_extends)", "source_sha": None, "where": "pams/**", "paths": None, "assumptions": []}]
     return {"obligations": obl, "info": info}
+
+
+# ----------------------------------------------------------------------------- overrides census: a proof about Market.f speaks about IndexMarket objects too only if IndexMarket does not replace what f calls
+# Calls `self.g(...)` are resolved statically when a function is executed symbolically.  The classes of pams that the contracts speak about (Market, OrderBook, Agent, Simulator,
+# Fundamentals, Logger, Session, Order) have subclasses inside pams; an override there of a method the proofs execute would make the proved text differ from the code that runs.
+# The overrides that exist are the designed extension points (constructors, `setup`, `submit_orders`, the hook methods of events, logger callbacks): each is under a contract of its own
+# or abstract in the base class.  Any OTHER override inside pams is an obligation that fails.
+KNOWN_OVERRIDES = {
+    ("IndexMarket", "Market"): {"__init__", "setup"},
+    ("FCNAgent", "Agent"): {"__init__", "__repr__", "setup", "submit_orders"}, ("ArbitrageAgent", "Agent"): {"__init__", "__repr__", "setup", "submit_orders"},
+    ("MarketMakerAgent", "Agent"): {"setup", "submit_orders"}, ("MarketShareFCNAgent", "Agent"): {"submit_orders"}, ("MarketShareFCNAgent", "FCNAgent"): {"submit_orders"},
+    ("TestAgent", "Agent"): {"submit_orders"}, ("HighFrequencyAgent", "Agent"): set(),
+    ("MarketStepPrintLogger", "Logger"): {"process_market_step_end_log"}, ("MarketStepSaver", "Logger"): {"__init__", "process_market_step_end_log"},
+    ("SequentialRunner", "Runner"): {"__init__", "_run", "_setup"},
+}
+EVENT_EXTENSION_POINTS = {"__init__", "setup", "hook_registration", "hooked_before_order", "hooked_after_order", "hooked_before_cancel", "hooked_after_cancel", "hooked_after_execution",
+                          "hooked_before_session", "hooked_after_session", "hooked_before_step_for_market", "hooked_after_step_for_market"}
+
+
+@task("census:overrides", props=["C01", "C04", "C06", "C08", "C17", "C19", "C20"], functions=[], replay="market_ops")
+def t_overrides():
+    src = get_src()
+    methods = {}
+    for qual in src.funcs:
+        if "." in qual:
+            c, m = qual.split(".", 1)
+            methods.setdefault(c, set()).add(m)
+    obl = []; n = 0
+    for c in sorted(methods):
+        for b in src.mro(c)[1:]:
+            if b not in methods:
+                continue
+            over = methods[c] & methods[b]
+            allowed = EVENT_EXTENSION_POINTS if b == "EventABC" else KNOWN_OVERRIDES.get((c, b), set())
+            extra = sorted(over - allowed)
+            n += 1
+            obl.append({"name": f"census:overrides/{c} overrides of {b} only the designed extension points {sorted(allowed)}" + ("" if not extra else f" -- also overrides {extra}"),
+                        "pc": [], "goal": z3.BoolVal(not extra), "kind": "census", "hints": {"class": c, "base": b, "unexpected": extra}})
+    obl.append({"name": "census:overrides/cover:subclass relations found", "pc": [], "goal": z3.BoolVal(n >= 10), "kind": "cover"})
+    info = [{"function": "all of pams (methods redefined in subclasses)", "source_sha": None, "where": "pams/**", "paths": None,
+             "assumptions": ["user subclasses are bound by DESIGN 3.5 (they may override the extension points only)"]}]
+    return {"obligations": obl, "info": info}
